@@ -457,6 +457,29 @@ def discovery_table(ctx, program, rid):
                     got[name.v] = (getattr(al, "v", None), ac is not None and ac != Const(None), getattr(rip, "v", None))
         else:
             got = d
+    # one file that cannot be read (wrong permissions) or decoded (not UTF-8): it alone is skipped, every other file is still discovered
+    for exc_cls, what in (("UnicodeDecodeError", "is not valid UTF-8"), ("PermissionError", "cannot be opened")):
+        def bad_open(i, n, a, k, c, o, exc_cls=exc_cls):
+            if a and a[0] == Const("/cfg/pyscript/scripts/top.py"):
+                o.add("raise", c.set("$exc", ExcV(exc_cls, "scripts/top.py")))
+                return []
+            return [(c, ObjV("fd", "file"))]
+
+        pol_b = FlowPolicy(program, may_raise_all=False, cancel=False, globals_={"pyscript_dir": Const("/cfg/pyscript")},
+                           summaries={"glob.glob": gglob, "open": bad_open, "file_desc.read": lambda i, n, a, k, c, o: [(c, Const("src"))],
+                                      "os.path.getmtime": lambda i, n, a, k, c, o: [(c, Const(1))],
+                                      "SourceFile": lambda i, n, a, k, c, o: [(c, DictV([(Const(kk), vv) for kk, vv in k.items()]))]})
+        pol_b.loop_unroll = 20
+        pol_b.max_cfgs = 4000
+        out_b = run_flow(program, uid, pol_b, args={"load_paths": load_paths, "apps_config": apps_config})
+        ex_b = exits(out_b)
+        names = None
+        if len(ex_b) == 1 and ex_b[0][0] == "return" and isinstance(ex_b[0][1].env.get("$ret"), DictV):
+            names = sorted(kk.v for kk, _ in ex_b[0][1].env.get("$ret").items)
+        ctx.check(names == sorted(set(want) - {"scripts.top"}), rid, uid, f"discovery when one file {what}",
+                  msg=f"glob_read_files when scripts/top.py {what} ({exc_cls}): " + (f"discovers {names}" if names is not None else f"ends with {[d for k, c, d in ex_b]}")
+                  + f"; specified: that file is skipped, the others ({sorted(set(want) - {'scripts.top'})}) are found - otherwise the whole reload (every other edit, creation, deletion) is abandoned",
+                  key=f"discovery unreadable {exc_cls}", node=program.func(uid), rel="__init__.py")
     ctx.check(len(ex) == 1 and got == want, rid, uid, "discovery on the file-tree model",
               msg=f"glob_read_files on the tree {DISCOVERY_TREE} with apps a1, a2 configured finds (context: autoload, has app config, package path) "
               f"{got}; documented: {want} ('#' files and directories, unconfigured apps, apps/a1.py shadowed by the package and non-.py files are skipped)",
